@@ -213,6 +213,12 @@ func (ls *listenServer) OnMoved(addr string, slot int32, s core.SConn, f *core.F
 	delete(f.Peer.Fd2Slot, s.Fd())
 	f.Peer.Fd2Slot[sConn.Fd()] = slot
 
+	if f.Type == codec.RspAsk {
+		// the reply to ASKING has no owner and is dropped like the reply to a topology probe
+		asking := core.FragPool.Get()
+		asking.Req = append(asking.Req, Asking...)
+		sConn.EnqueueOutFrag(asking)
+	}
 	sConn.EnqueueOutFrag(f)
 }
 
